@@ -5,6 +5,7 @@ package main
 import (
 	"fmt"
 	"go/constant"
+	"go/token"
 	"go/types"
 	"sort"
 	"strings"
@@ -188,6 +189,29 @@ func c16Guards(w *World, r *Report) {
 			}
 			if len(rejecting) == 0 {
 				ob.Undecided("reject-edge/"+g.name+"@"+h.name, "no rejecting edge found for "+g.name)
+			}
+		}
+	}
+	// the forwarding server adds no path around these guards: it reaches the storage service only
+	// through the embedded KVServer's methods (or forwards to the leader)
+	if nt := w.NamedType("regattaserver", "ForwardingKVServer"); nt != nil {
+		ms := w.Prog.MethodSets.MethodSet(types.NewPointer(nt))
+		for i := 0; i < ms.Len(); i++ {
+			fn := w.MethodOf(types.NewPointer(nt), ms.At(i).Obj().Name())
+			if fn == nil || fn.Blocks == nil || fn.Signature.Recv() == nil || !strings.Contains(fn.Signature.Recv().Type().String(), "ForwardingKVServer") {
+				continue
+			}
+			ob.Site(fn.Pos(), "forwarding override "+FnName(fn))
+			for _, f := range withClosures(fn) {
+				eachInstr(f, func(in ssa.Instruction) {
+					c := callOf(in)
+					if c == nil || !c.IsInvoke() {
+						return
+					}
+					if n, ok := c.Value.Type().(*types.Named); ok && n.Obj().Name() == "KVService" {
+						ob.Violate("forwarding-bypasses-guards@"+FnName(fn), in.Pos(), FnName(fn)+" calls the storage service directly ("+c.Method.Name()+"), bypassing the request guards and status mapping of KVServer")
+					}
+				})
 			}
 		}
 	}
@@ -657,6 +681,7 @@ func c16CrashSurface(w *World, r *Report) {
 	// Lookup type table vs readTable instantiations
 	c16LookupTable(w, ob, a)
 	c16MetaLookupTable(w, ob)
+	c16Allocations(w, ob, reach)
 	ob.NeedFloor(8)
 }
 
@@ -813,4 +838,158 @@ func c16MetaLookupTable(w *World, ob *Ob) {
 			}
 		}
 	}
+}
+
+// c16Allocations: implicit crash surface - make() with a size that is not provably
+// non-negative on a request path panics ("makeslice: len/cap out of range") for wire-controlled
+// negative values (e.g. the limit of a range operation nested in a transaction, which no
+// handler validates).
+func c16Allocations(w *World, ob *Ob, reach map[*ssa.Function]bool) {
+	n := 0
+	for _, fn := range sortedFuncs(reach) {
+		if isGenerated(fn) {
+			continue
+		}
+		eachInstr(fn, func(in ssa.Instruction) {
+			ms, ok := in.(*ssa.MakeSlice)
+			if !ok {
+				return
+			}
+			for _, sz := range []ssa.Value{ms.Len, ms.Cap} {
+				if sz == nil {
+					continue
+				}
+				n++
+				if nonNegative(sz, 0) {
+					continue
+				}
+				// guarded? every path to the make crosses an edge establishing size >= 0
+				ctx := &ExprCtx{}
+				lin, okL := ctx.linear(sz)
+				guarded := false
+				if okL {
+					if need, okN := intLit(lin, token.GEQ); okN {
+						wk := &Walk{Target: func(x ssa.Instruction) bool { return x == in }, EdgeOK: func(b *ssa.BasicBlock, k int) bool {
+							for _, l := range ctx.EdgeLits(b, k) {
+								if l.Implies(need) {
+									return false
+								}
+							}
+							return true
+						}}
+						guarded = wk.Find(entry(fn)) == nil
+					}
+				}
+				if !guarded {
+					ob.Violate("unbounded-make@"+FnName(fn), in.Pos(), "make() with size `"+Expr(sz)+"` that is not provably non-negative on a request path: a negative wire value (e.g. a nested range limit) panics the handler or the apply worker")
+				}
+			}
+		})
+	}
+	ob.SiteS("make() sizes examined on request paths: " + itoa(n))
+}
+
+var nnAssumed = map[*ssa.Phi]bool{}
+
+// nonNegative: syntactic proof that an integer value is >= 0.
+func nonNegative(v ssa.Value, depth int) bool {
+	if depth > 6 {
+		return false
+	}
+	if isUnsigned(v.Type()) {
+		return true
+	}
+	switch x := v.(type) {
+	case *ssa.Const:
+		return x.Value != nil && constant.Sign(constant.ToInt(x.Value)) >= 0
+	case *ssa.Convert:
+		// widening from unsigned or from a non-negative value
+		if isUnsigned(x.X.Type()) {
+			return true
+		}
+		return nonNegative(x.X, depth+1)
+	case *ssa.ChangeType:
+		return nonNegative(x.X, depth+1)
+	case *ssa.Call:
+		n := CalleeName(&x.Call)
+		switch n {
+		case "builtin.len", "builtin.cap":
+			return true
+		case "builtin.min":
+			for _, a := range x.Call.Args {
+				if !nonNegative(a, depth+1) {
+					return false
+				}
+			}
+			return true
+		case "builtin.max":
+			for _, a := range x.Call.Args {
+				if nonNegative(a, depth+1) {
+					return true
+				}
+			}
+			return false
+		}
+		for _, suf := range []string{").Len", ").Size", ").SizeVT", ").Cap", ".EncodedLen", ".MaxEncodedLen"} {
+			if strings.HasSuffix(n, suf) {
+				return true
+			}
+		}
+	case *ssa.BinOp:
+		switch x.Op {
+		case token.ADD, token.MUL:
+			return nonNegative(x.X, depth+1) && nonNegative(x.Y, depth+1)
+		case token.QUO, token.REM, token.SHR, token.AND:
+			return nonNegative(x.X, depth+1) && nonNegative(x.Y, depth+1)
+		}
+	case *ssa.Phi:
+		// coinductive: a loop counter starting >= 0 and only growing is >= 0
+		if nnAssumed[x] {
+			return true
+		}
+		nnAssumed[x] = true
+		defer delete(nnAssumed, x)
+		for _, e := range x.Edges {
+			if e == ssa.Value(x) {
+				continue
+			}
+			if !nonNegative(e, depth+1) {
+				return false
+			}
+		}
+		return true
+	case *ssa.UnOp:
+		if x.Op == token.MUL {
+			if al, ok := x.X.(*ssa.Alloc); ok && al.Parent() != nil {
+				sts := storesTo(al.Parent(), al)
+				if len(sts) == 0 {
+					return false
+				}
+				for _, st := range sts {
+					if !nonNegative(st.Val, depth+1) {
+						return false
+					}
+				}
+				return true
+			}
+			if fv, ok := x.X.(*ssa.FreeVar); ok {
+				if b, ok := closureBinding(fv.Parent(), fv).(*ssa.Alloc); ok && b.Parent() != nil {
+					for _, st := range storesTo(b.Parent(), b) {
+						if !nonNegative(st.Val, depth+1) {
+							return false
+						}
+					}
+					return len(storesTo(b.Parent(), b)) > 0
+				}
+			}
+		}
+	case *ssa.Extract:
+		if call, ok := x.Tuple.(*ssa.Call); ok {
+			n := CalleeName(&call.Call)
+			if (strings.HasSuffix(n, ").Read") || strings.HasSuffix(n, ").Write") || n == "builtin.copy") && x.Index == 0 {
+				return true
+			}
+		}
+	}
+	return false
 }
